@@ -29,6 +29,25 @@ class SliceSeq(SymSeq):
         return self.base.at(P, simp(as_z3int(self.off) + as_z3int(idx)))
 
 
+class PrefixSeq(SymSeq):
+    """`[x0, .., x(n-1)] + s` for a concrete list prefix and a symbolic-length list `s`: length n + len(s);
+    element k is x_k for a concrete k < n and s[k - n] for an index that is provably >= n (syntactically:
+    a concrete k >= n, or `n + j`); any other symbolic index is unsupported"""
+    __slots__ = ('prefix', 'base')
+
+    def __init__(self, prefix, base):
+        SymSeq.__init__(self, f'{len(prefix)}+{base.name}', simp(len(prefix) + as_z3int(base.length)), base.elem, base.kind)
+        self.prefix = prefix
+        self.base = base
+
+    def at(self, P, idx):
+        n = len(self.prefix)
+        idx = simp(as_z3int(idx)) if is_z3(idx) else idx
+        if isinstance(idx, int):
+            return self.prefix[idx] if idx < n else self.base.at(P, idx - n)
+        raise Unsupported(f'symbolic index {idx} into a list with a concrete prefix')
+
+
 def _norm(bound, n, default):
     """CPython PySlice_AdjustIndices for step 1"""
     if bound is None:
